@@ -153,6 +153,15 @@ CHECKS['C28'] = dict(
          'evidence, not alarmed. Assumes per-element additivity for mixed NULL/non-NULL rows.',
     design='§4 C28')
 
+CHECKS['C29'] = dict(
+    technique='dominance analysis of the authenticate coroutine (suspension points re-linked), return-value provenance of the verifiers, call-sequence table of the digest composition',
+    text='Decides that AuthenticationOk is only reachable in the trust arm or under the true edge of verify_cleartext/verify_md5 of the '
+         'matching method arm, that the verified salt is the salt sent, that unknown methods cannot reach Ok; that the verifiers can only '
+         'return true through Argon2 verification resp. a full equality with compute_md5_password(stored, user, salt) and apply no partial '
+         'matcher to the client response (strip_prefix("md5") is test-pinned); and that the MD5 digest is composed in protocol order.',
+    note='Not decided: Argon2/MD5 correctness (trusted crates), constant-time comparison, password file parsing.',
+    design='§4 C29')
+
 NOT_APPLICABLE = {
     'C01': 'Equality of result multisets with a reference engine is a value-level semantic equivalence over all queries and data; no structural necessary condition beyond those claimed under C06/C21/C24 exists and a static rule cannot stand in for an oracle.',
     'C03': 'Columnar-vs-row agreement is determined by computed values (empty input, NULL handling, sums); a rejected shape falls back safely, so no table-agreement obligation exists whose breach necessarily changes results.',
